@@ -204,7 +204,17 @@ def fork_and_abuse(H, kind, label, spin):
                 getattr(Hf, "add_constraint_%s_zero" % rel)({(label,): 1, (): -1})
 
 
-def run_scenario(scen_id, steps, spin, py_labels, first_id, objective=None, arg_form="dict", fork=None):
+def rebound(H, kind):
+    """the model the scenario continues with: H itself or an equal model derived from it (constraints, ancilla counter and
+    terms carry over by C14 / C19, so the following constraints must behave as if nothing had happened)"""
+    if kind == "refresh":
+        H.refresh()
+        return H
+    return {"copy": lambda: H.copy(), "add0": lambda: H + 0, "mul1": lambda: 1 * H, "ctor": lambda: type(H)(H),
+            "neg": lambda: -(-H)}[kind]()
+
+
+def run_scenario(scen_id, steps, spin, py_labels, first_id, objective=None, arg_form="dict", fork=None, rebind=None):
     """steps: list of dicts {mode:'cmp', P, rel, lam, lt, bounds(py), bounds_rec} or {mode:'gate', gate, geq, a, ops, lam}
     returns encoded records"""
     import qubovert as qv
@@ -215,6 +225,11 @@ def run_scenario(scen_id, steps, spin, py_labels, first_id, objective=None, arg_
     for si, st in enumerate(steps):
         rec = blank_record()
         rec.update({"id": first_id + si, "scen": scen_id, "step": si, "mode": st["mode"], "spin": spin, "lam": st["lam"]})
+        if rebind and si > 0:
+            try:
+                H = rebound(H, rebind)
+            except Exception:       # noqa  (a failing derivation is C05 / C14 business; the scenario goes on with H)
+                pass
         before = snapshot_model(H, names)
         wunsat = walways = False
         raised = ""
@@ -236,6 +251,9 @@ def run_scenario(scen_id, steps, spin, py_labels, first_id, objective=None, arg_
                         kw["log_trick"] = st["lt"]
                     getattr(H, "add_constraint_%s_zero" % st["rel"])(arg, **kw)
                     unchanged = dict(arg) == arg_before and type(arg) is type(arg)
+                    # what the caller does with its own polynomial afterwards must not reach the model
+                    arg[()] = arg.get((), 0) + 7
+                    arg[("__poked__",)] = 1
                     rec.update({"rel": st["rel"], "lt": st["lt"], "bounds": st["bounds_rec"], "P": list(P.items())})
                     for l in {x for k in P for x in k}:
                         if l not in problem_labels:
